@@ -116,6 +116,15 @@ def gen_static_spec(rng):
                      "openTypeGaspRangeRecords": [{"rangeMaxPPEM": 65535,
                                                    "rangeGaspBehavior": [0, 1]}],
                      "styleMapStyleName": rng.choice(["regular", "bold italic", "italic"])})
+    if rng.random() < 0.3:
+        # UFO 3 identifiers on components (what the per-component TrueType flags are keyed by);
+        # the glyph's public.objectLibs entry exists for some of them only
+        for g in glyphs:
+            for k, c in enumerate(g["components"]):
+                c["id"] = "%s.c%d" % (g["name"], k)
+            if g["components"] and rng.random() < 0.4:
+                g.setdefault("lib", {})["public.objectLibs"] = {
+                    g["components"][0]["id"]: {"public.truetype.roundOffsetToGrid": True}}
     return {"glyphs": glyphs, "kerning": kerning, "groups": groups, "lib": lib,
             "features": features, "info": info}
 
